@@ -385,6 +385,7 @@ impl Property for C05 {
             expect: serde_json::to_value(&expect).unwrap(),
             shape: h.0,
             est_len: 100,
+            min_quantum: 0,
         }
     }
     fn monitor(&self, scn: &Scenario) -> Box<dyn Monitor + Send> {
